@@ -45,8 +45,21 @@ def gen_c12_small(rng):
     return {"server": sv, "net": {"seg": "whole", "delay": 0}, "methods": methods, "clients": clients, "lifecycle": "serve"}
 
 
+def gen_c12_flood(rng):
+    """Many clients at once on a pooled server with its default pool (30 workers): more connections pending than the
+    pool has workers, each with one slow call; every one of them is answered."""
+    n = rng.choice([40, 64, 70])
+    sv = {"kind": "pooled", "family": rng.choice(["tcp", "unix"]), "version": 2.0}
+    methods = {"echo": {"kind": "echo"}, "slow": {"kind": "slow", "d": rng.choice([1.0, 2.0])}}
+    clients = [{"version": None, "history": False, "ops": [["call", "slow", ["c%do0" % ci, 0]]]} for ci in range(n)]
+    return {"server": sv, "net": {"seg": "whole", "delay": 0}, "methods": methods, "clients": clients, "lifecycle": "serve", "big": True}
+
+
 def gen_c12(rng, big=False):
-    if rng.random() < 0.2:
+    k0 = rng.random()
+    if k0 < 0.003:
+        return gen_c12_flood(rng)
+    if k0 < 0.2:
         return gen_c12_small(rng)
     kind = rng.choice(["plain", "plain", "pooled", "pooled-user", "pooled-user"])
     sv = {"kind": kind, "family": rng.choice(["tcp", "tcp", "unix"]), "version": rng.choice([2.0, 2.0, 2.0, 1.0])}
@@ -384,6 +397,8 @@ class C12Scenario(object):
             p["client_died_mid_body"] = 1
         if any(o["kind"] == "rawslow" for o in h.ops.values()):
             p["request_with_a_pause_of_seconds_inside"] = 1
+        if len(program["clients"]) >= 40:
+            p["more_clients_at_once_than_pool_workers"] = 1
         if any(o["kind"] == "abort" for o in h.ops.values()):
             p["client_aborted_connection"] = 1
         if any(o["kind"] == "abort" and o["op"][1] == "no-length" for o in h.ops.values()):
